@@ -624,3 +624,409 @@ func ruleMetadata(r *Report) {
 		r.Bad(rule, key, fn.Pos(), "metadata is recorded before the writers were closed (sizes of unflushed files) or is not the last file written")
 	}
 }
+
+// R-bloom-size-positive (C01): the stream writer rejects an expected element count of zero, and the background
+// goroutines turn any error into a process stop — so every count simpledb passes must be provably positive.
+func ruleBloomSizePositive(r *Report) {
+	const rule = "bloom-size-positive"
+	r.Rule(rule, 2, "every expected-element count simpledb hands to the table writer is provably positive (guarded by a zero test that leaves, or clamped to at least 1): the writer rejects 0 and a rejected flush / compaction terminates the process")
+	p := r.P
+	n := 0
+	for _, fn := range p.FuncsOfPkg("simpledb") {
+		for _, s := range CallsIn(fn, Keys("sstables.BloomExpectedNumberOfElements")) {
+			n++
+			r.Saw(fn)
+			key := ef0uniq(rule + "/" + FuncKey(fn))
+			x := s.Call().Common().Args[0]
+			if positiveValue(fn, s, x, 0) {
+				r.OK(rule, key, s.Pos(), "count is guarded / clamped to be positive")
+			} else {
+				r.Bad(rule, key, s.Pos(), "the expected element count can be zero (e.g. a compaction whose selected tables hold no records any more): the writer returns an error and the background goroutine stops the process")
+			}
+		}
+	}
+	if n == 0 {
+		r.Missing(rule, rule+"/sites", "no BloomExpectedNumberOfElements call in simpledb")
+	}
+}
+
+func positiveValue(fn *ssa.Function, at Site, x ssa.Value, depth int) bool {
+	if depth > 4 {
+		return false
+	}
+	if k, ok := constInt(x); ok {
+		return k > 0
+	}
+	switch v := x.(type) {
+	case *ssa.Convert:
+		return positiveValue(fn, at, v.X, depth+1)
+	case *ssa.Phi:
+		for i, e := range v.Edges {
+			// an edge is fine if its value is positive, or if the edge is the non-zero edge of a zero test of that value
+			if positiveValue(fn, at, e, depth+1) {
+				continue
+			}
+			pred := v.Block().Preds[i]
+			if !nonZeroOnEdge(pred, v.Block(), e) {
+				return false
+			}
+		}
+		return true
+	case *ssa.Call:
+		if b, ok := v.Call.Value.(*ssa.Builtin); ok && b.Name() == "max" {
+			for _, a := range v.Call.Args {
+				if positiveValue(fn, at, a, depth+1) {
+					return true
+				}
+			}
+		}
+	}
+	// dominated by a zero test of x (or of a call of the same method on the same receiver) whose zero edge leaves
+	for _, b := range liveBlocks(fn) {
+		if len(b.Instrs) == 0 || !b.Dominates(at.Block) || b == at.Block {
+			continue
+		}
+		iff, ok := b.Instrs[len(b.Instrs)-1].(*ssa.If)
+		if !ok {
+			continue
+		}
+		bo, ok := iff.Cond.(*ssa.BinOp)
+		if !ok {
+			continue
+		}
+		k, isK := constInt(bo.Y)
+		if !isK || k != 0 {
+			continue
+		}
+		if !sameQuantity(stripConvert(bo.X), stripConvert(x)) {
+			continue
+		}
+		var zeroSucc, otherSuccB *ssa.BasicBlock
+		switch bo.Op {
+		case token.EQL, token.LEQ:
+			zeroSucc, otherSuccB = b.Succs[0], b.Succs[1]
+		case token.NEQ, token.GTR:
+			zeroSucc, otherSuccB = b.Succs[1], b.Succs[0]
+		default:
+			continue
+		}
+		_ = zeroSucc
+		if otherSuccB == at.Block || otherSuccB.Dominates(at.Block) {
+			return true
+		}
+	}
+	return false
+}
+
+func nonZeroOnEdge(from, to *ssa.BasicBlock, v ssa.Value) bool {
+	if len(from.Instrs) == 0 {
+		return false
+	}
+	iff, ok := from.Instrs[len(from.Instrs)-1].(*ssa.If)
+	if !ok {
+		return false
+	}
+	bo, ok := iff.Cond.(*ssa.BinOp)
+	if !ok || stripConvert(bo.X) != stripConvert(v) {
+		return false
+	}
+	k, isK := constInt(bo.Y)
+	if !isK || k != 0 {
+		return false
+	}
+	switch bo.Op {
+	case token.EQL, token.LEQ:
+		return from.Succs[1] == to
+	case token.NEQ, token.GTR:
+		return from.Succs[0] == to
+	}
+	return false
+}
+
+// sameQuantity: the same SSA value, or two invocations of the same method on the same receiver value (e.g. Size()).
+func sameQuantity(a, b ssa.Value) bool {
+	if a == b {
+		return true
+	}
+	ca, ok1 := a.(*ssa.Call)
+	cb, ok2 := b.(*ssa.Call)
+	if ok1 && ok2 && ca.Call.IsInvoke() && cb.Call.IsInvoke() && ca.Call.Method == cb.Call.Method && ca.Call.Value == cb.Call.Value && len(ca.Call.Args) == 0 {
+		return true
+	}
+	return false
+}
+
+// R-slot-in-list (C06, C01): in the live list the merged table takes exactly the position of the replacement path.
+func ruleSlotInList(r *Report) {
+	const rule = "slot-in-list"
+	r.Rule(rule, 2, "the compaction swap stores the re-opened merged table into the list element found by looking up the replacement path, and otherwise only removes input elements in place: relative order (= read precedence) of all other tables is untouched")
+	p := r.P
+	var fn *ssa.Function
+	for _, f := range p.FuncsOfPkg("simpledb") {
+		if strings.HasPrefix(FuncKey(f), "simpledb.SSTableManager.reflectCompactionResult") && len(CallsIn(f, Keys("os.Rename"))) > 0 {
+			fn = f
+		}
+	}
+	if fn == nil {
+		r.Missing(rule, rule+"/reflectCompactionResult", "swap function not found")
+		return
+	}
+	r.Saw(fn)
+	// (1) element store at index-of(ReplacementPath) of the reader opened in this function
+	key := rule + "/" + FuncKey(fn) + "/element-store"
+	ok := false
+	eachInstr(fn, func(s Site) {
+		st, isS := s.Instr.(*ssa.Store)
+		if !isS {
+			return
+		}
+		ia, isI := st.Addr.(*ssa.IndexAddr)
+		if !isI {
+			return
+		}
+		if _, f, _, isF := loadOfField(ia.X); !isF || f != "allSSTableReaders" {
+			return
+		}
+		// index = lookup(list, m.ReplacementPath)
+		c, isC := ia.Index.(*ssa.Call)
+		if !isC {
+			return
+		}
+		byRepl := false
+		for _, a := range c.Call.Args {
+			if _, f, _, isF := loadOfField(a); isF && f == "ReplacementPath" {
+				byRepl = true
+			}
+		}
+		// value = reader opened in this function
+		opened := false
+		v := stripIface(st.Val)
+		if ex, isE := v.(*ssa.Extract); isE {
+			if cc, isCC := ex.Tuple.(*ssa.Call); isCC && CalleeKey(cc) == "sstables.NewSSTableReader" {
+				opened = true
+			}
+		}
+		if byRepl && opened {
+			ok = true
+		}
+	})
+	if ok {
+		r.OK(rule, key, fn.Pos(), "list[indexOf(ReplacementPath)] = re-opened merged table")
+	} else {
+		r.Bad(rule, key, fn.Pos(), "the merged table is not stored into the list position of the replacement path (the oldest input): it may end up older than unselected tables and be shadowed by, or shadow, the wrong tables")
+	}
+	// (2) the list field is only reassigned from in-place removals of the same list
+	key = rule + "/" + FuncKey(fn) + "/list-only-shrinks-in-place"
+	bad := false
+	n := 0
+	eachInstr(fn, func(s Site) {
+		st, isS := s.Instr.(*ssa.Store)
+		if !isS {
+			return
+		}
+		if t, f, _, isF := fieldAddrName(st.Addr); !isF || t != "simpledb.SSTableManager" || f != "allSSTableReaders" {
+			return
+		}
+		n++
+		c, isC := st.Val.(*ssa.Call)
+		if !isC {
+			bad = true
+			return
+		}
+		okc := false
+		for _, t := range p.Callees(c) {
+			if inPlaceSliceMutator(t) {
+				for _, a := range argsOf(c) {
+					if _, f, _, isF := loadOfField(a); isF && f == "allSSTableReaders" {
+						okc = true
+					}
+				}
+			}
+		}
+		if !okc {
+			bad = true
+		}
+	})
+	if bad {
+		r.Bad(rule, key, fn.Pos(), "the live list is rebuilt instead of shrunk in place: the order of the remaining tables (their read precedence) is no longer the old order")
+	} else {
+		r.OK(rule, key, fn.Pos(), fmt.Sprintf("%d reassignment(s), all in-place removals from the same list", n))
+	}
+}
+
+// R-value-buffers-immutable (C05, C14, C18): a value slice stored in the memstore is handed out by Get and may be in
+// use by a reader that already left the lock; it must never be written again.
+func ruleValueBuffersImmutable(r *Report) {
+	const rule = "value-buffers-immutable"
+	r.Rule(rule, 1, "the memstore never writes into the backing array of a stored value (no append/copy into, or element store through, a slice loaded from a value cell): values handed out by Get stay unchanged while later writes happen")
+	p := r.P
+	n := 0
+	for _, pk := range []string{"memstore", "simpledb"} {
+		for _, fn := range p.FuncsOfPkg(pk) {
+			// taint: loads of value cells
+			var seeds []ssa.Value
+			eachInstr(fn, func(s Site) {
+				if u, ok := s.Instr.(*ssa.UnOp); ok && u.Op == token.MUL {
+					if _, isV := valueCellOf(u.X); isV {
+						seeds = append(seeds, u)
+					}
+				}
+			})
+			if len(seeds) == 0 {
+				continue
+			}
+			n++
+			r.Saw(fn)
+			t := taintClosure(fn, seeds, nil)
+			bad := ""
+			eachInstr(fn, func(s Site) {
+				switch x := s.Instr.(type) {
+				case *ssa.Call:
+					if b, ok := x.Call.Value.(*ssa.Builtin); ok && (b.Name() == "append" || b.Name() == "copy") && len(x.Call.Args) > 0 && t[x.Call.Args[0]] {
+						bad = p.Pos(x.Pos())
+					}
+				case *ssa.Store:
+					if ia, ok := x.Addr.(*ssa.IndexAddr); ok && t[ia.X] {
+						bad = p.Pos(x.Pos())
+					}
+				}
+			})
+			key := rule + "/" + FuncKey(fn)
+			if bad != "" {
+				r.Bad(rule, key, fn.Pos(), "a stored value's buffer is written in place at "+bad+": a Get that returned it earlier (and already left the lock) observes a torn or changed value")
+			} else {
+				r.OK(rule, key, fn.Pos(), "stored value buffers are only replaced, never written")
+			}
+		}
+	}
+	if n == 0 {
+		r.Missing(rule, rule+"/sites", "no function loads a stored value")
+	}
+}
+
+// R-pool-put-once (C03, C04, C18): a pooled buffer goes back to the pool at most once per call.
+func rulePoolPutOnce(r *Report) {
+	const rule = "pool-put-once"
+	r.Rule(rule, 6, "every buffer obtained from the pool is returned to it by exactly one Put (deferred or direct) per path: a buffer put twice is handed to two later Get calls at once, which then alias (e.g. decompression output over its own input)")
+	p := r.P
+	n := 0
+	for _, fn := range p.FuncsOfPkg("recordio") {
+		for _, g := range CallsIn(fn, func(k string) bool { return strings.HasSuffix(k, "bufferpool.Pool.Get") }) {
+			n++
+			r.Saw(fn)
+			key := ef0uniq(rule + "/" + FuncKey(fn))
+			v := g.Instr.(ssa.Value)
+			var defers, directs []Site
+			// values derived from v (through extract/phi/tuple results of allocate helpers)
+			eachInstr(fn, func(s Site) {
+				c, ok := s.Instr.(ssa.CallInstruction)
+				if !ok || !strings.HasSuffix(CalleeKey(c), "bufferpool.Pool.Put") {
+					return
+				}
+				a := argsOf(c)
+				if len(a) == 0 || a[0] != v {
+					return
+				}
+				if _, isD := c.(*ssa.Defer); isD {
+					defers = append(defers, s)
+				} else {
+					directs = append(directs, s)
+				}
+			})
+			switch {
+			case len(defers) > 1, len(defers) == 1 && len(directs) > 0:
+				r.Bad(rule, key, g.Pos(), "a pooled buffer is put back more than once on some path (deferred Put plus another Put): two later Get calls receive the same backing array")
+			case len(defers) == 0 && len(directs) > 1:
+				// several direct puts are fine only if no two are on one path
+				dup := false
+				for i := range directs {
+					for j := range directs {
+						if i != j && reachableFromSite(directs[i], directs[j]) {
+							dup = true
+						}
+					}
+				}
+				if dup {
+					r.Bad(rule, key, g.Pos(), "a pooled buffer is put back twice on one path")
+				} else {
+					r.OK(rule, key, g.Pos(), "one Put per path")
+				}
+			default:
+				r.OK(rule, key, g.Pos(), "at most one Put")
+			}
+		}
+	}
+	if n == 0 {
+		r.Missing(rule, rule+"/sites", "no pooled buffer found")
+	}
+}
+
+// R-bloom-every-key (C03): every accepted key is added to the bloom filter (only the enable flag may skip it).
+func ruleBloomEveryKey(r *Report) {
+	const rule = "bloom-every-key"
+	r.Rule(rule, 1, "with the bloom filter enabled, every path of WriteNext that reaches the appends has added the key to the filter: no other condition may skip the add (a written key missing from the filter is reported absent)")
+	fn := r.NeedFunc(rule, "sstables.SSTableStreamWriter.WriteNext")
+	if fn == nil {
+		return
+	}
+	key := rule + "/sstables.SSTableStreamWriter.WriteNext"
+	adds := CallsIn(fn, func(k string) bool { return strings.HasSuffix(k, "bloomfilter.Filter.Add") })
+	enT, _ := condEdges(fn, isFieldLoad("sstables.SSTableWriterOptions", "enableBloomFilter"))
+	if len(adds) == 0 || len(enT) == 0 {
+		r.Bad(rule, key, fn.Pos(), "keys are not added to the bloom filter under the enableBloomFilter switch")
+		return
+	}
+	removed := map[Edge]bool{}
+	for _, a := range adds {
+		for _, su := range a.Block.Succs {
+			removed[Edge{a.Block, su}] = true
+		}
+	}
+	bad := false
+	for _, e := range enT {
+		reach := reachFrom(e.To, removed)
+		for _, w := range CallsIn(fn, dataWrite) {
+			inAddBlock := false
+			for _, a := range adds {
+				if a.Block == w.Block && a.Idx < w.Idx {
+					inAddBlock = true
+				}
+			}
+			if reach[w.Block] && !inAddBlock {
+				bad = true
+			}
+		}
+	}
+	if bad {
+		r.Bad(rule, key, adds[0].Pos(), "with the filter enabled a key can reach the data append without having been added to the filter (an extra condition guards the add): Contains reports written keys as absent")
+	} else {
+		r.OK(rule, key, adds[0].Pos(), "filter enabled ⇒ every appended key was added")
+	}
+}
+
+// R-no-glob-on-user-path (C07, C10): file listings must not interpret a user-supplied directory as a pattern.
+func ruleNoGlob(r *Report) {
+	const rule = "no-glob-on-user-path"
+	r.Rule(rule, 1, "WAL / table listings walk or read the directory; they never pass a path built from the user-supplied base path to a pattern API (filepath.Glob / Match), which would misread legal directory names containing [, ? or *")
+	p := r.P
+	bad := ""
+	lists := 0
+	for _, pk := range []string{"wal", "simpledb", "sstables"} {
+		for _, fn := range p.FuncsOfPkg(pk) {
+			lists += len(CallsIn(fn, Keys("path/filepath.Walk", "path/filepath.WalkDir", "os.ReadDir")))
+			for _, s := range CallsIn(fn, Keys("path/filepath.Glob", "path/filepath.Match", "path.Match")) {
+				if _, isConst := s.Call().Common().Args[0].(*ssa.Const); !isConst {
+					bad = FuncKey(fn) + "@" + p.Pos(s.Pos())
+				}
+			}
+		}
+	}
+	key := rule + "/listings"
+	if bad != "" {
+		r.Bad(rule, key, 0, "a pattern API receives a path derived from user input ("+bad+"): a base directory whose name contains pattern characters yields no (or wrong) files — replay silently delivers nothing")
+	} else if lists == 0 {
+		r.Missing(rule, key, "no directory listing found")
+	} else {
+		r.OK(rule, key, 0, fmt.Sprintf("%d directory listing(s), none through a pattern API", lists))
+	}
+}
